@@ -1236,4 +1236,195 @@ theorem zkpok_complete (hA : ArithOK) {cs : Suite} (hR : RangeComplete cs) {msgs
   rw [bind_of_ok hv3, not_true_if]
   exact hv4
 
+/-! ## 11. Verification consumes no randomness (`TapeFree`) -/
+
+/-- `x` never looks at the tape: it returns the same value on every tape (leaving it untouched), or it
+panics on every tape. All verification functions and the deterministic parts of the issuer are such. -/
+def TapeFree {α} (x : M α) : Prop := (∃ a, ∀ s, x s = .ok (a, s)) ∨ (∀ s, x s = .panic)
+
+namespace TapeFree
+variable {α β : Type}
+
+theorem pure (a : α) : TapeFree (Pure.pure a : M α) := Or.inl ⟨a, fun _ => rfl⟩
+theorem panic : TapeFree (Zk.Cl.panic : M α) := Or.inr fun _ => rfl
+theorem ofOpt (o : Option α) : TapeFree (Zk.Cl.ofOpt o) := by
+  cases o with
+  | none => exact panic
+  | some a => exact pure a
+theorem pw (b e n : Int) : TapeFree (Zk.Cl.pw b e n) := ofOpt _
+theorem idx (l : List α) (i : Nat) : TapeFree (Zk.Cl.idx l i) := ofOpt _
+
+theorem bind {x : M α} {f : α → M β} (hx : TapeFree x) (hf : ∀ a, TapeFree (f a)) :
+    TapeFree (x >>= f) := by
+  rcases hx with ⟨a, ha⟩ | hp
+  · rcases hf a with ⟨b, hb⟩ | hq
+    · exact Or.inl ⟨b, fun s => by rw [bind_of_ok (ha s)]; exact hb s⟩
+    · exact Or.inr fun s => by rw [bind_of_ok (ha s)]; exact hq s
+  · exact Or.inr fun s => by rw [bind_run, hp s]
+
+theorem bind_prod {γ : Type} {x : M (α × γ)} {f : α × γ → M β} (hx : TapeFree x)
+    (hf : ∀ a c, TapeFree (f (a, c))) : TapeFree (x >>= f) :=
+  bind hx fun p => by obtain ⟨a, c⟩ := p; exact hf a c
+
+theorem ite (c : Prop) [Decidable c] {x y : M α} (hx : TapeFree x) (hy : TapeFree y) :
+    TapeFree (if c then x else y) := by
+  split <;> assumption
+
+/-- the value is independent of the tape -/
+theorem ok_any {x : M α} (h : TapeFree x) {t t' : List Draw} {a : α} (hx : x t = .ok (a, t'))
+    (s : List Draw) : x s = .ok (a, s) := by
+  rcases h with ⟨b, hb⟩ | hp
+  · rw [hb t] at hx
+    simp only [CRes.ok.injEq, Prod.mk.injEq] at hx
+    rw [hb s, hx.1]
+  · rw [hp t] at hx; cases hx
+
+theorem tape_eq {x : M α} (h : TapeFree x) {t t' : List Draw} {a : α} (hx : x t = .ok (a, t')) :
+    t' = t := by
+  have := h.ok_any hx t
+  rw [hx] at this
+  simp only [CRes.ok.injEq, Prod.mk.injEq] at this
+  exact this.2
+
+end TapeFree
+
+/-- one structural step of a `TapeFree` proof -/
+macro "tf_step" : tactic => `(tactic| first
+  | exact TapeFree.pure _
+  | exact TapeFree.panic
+  | exact TapeFree.pw _ _ _
+  | exact TapeFree.idx _ _
+  | exact TapeFree.ofOpt _
+  | assumption
+  | refine TapeFree.ite _ ?_ ?_
+  | refine TapeFree.bind ?_ (fun _ => ?_)
+  | refine TapeFree.bind_prod ?_ (fun _ _ => ?_))
+
+theorem divm_tapeFree (a b m : Int) : TapeFree (divm a b m) := by
+  unfold divm
+  split
+  · tf_step
+  · dsimp only
+    split
+    · tf_step
+    · split <;> tf_step
+
+theorem sqrtM_tapeFree (x : Int) : TapeFree (sqrtM x) := by
+  unfold sqrtM; repeat tf_step
+
+theorem tolBounds_tapeFree (a b : Int) (t l T : Nat) : TapeFree (tolBounds a b t l T) := by
+  unfold tolBounds
+  exact TapeFree.bind (sqrtM_tapeFree _) fun _ => TapeFree.pure _
+
+theorem verifySameSecret_tapeFree (E F g1 h1 g2 h2 n : Int) (π : ProofSs) :
+    TapeFree (verifySameSecret E F g1 h1 g2 h2 n π) := by
+  unfold verifySameSecret; repeat tf_step
+
+theorem verifyOfSquare_tapeFree (π : ProofOfS) (g h n : Int) : TapeFree (verifyOfSquare π g h n) :=
+  verifySameSecret_tapeFree _ _ _ _ _ _ _ _
+
+theorem verifyLargeIntervalSpecific_tapeFree (π : ProofLi) (E g h n : Int) (t l : Nat) (b : Int)
+    (T : Nat) : TapeFree (verifyLargeIntervalSpecific π E g h n t l b T) := by
+  unfold verifyLargeIntervalSpecific; repeat tf_step
+
+theorem verifyOfToleranceSpecific_tapeFree (π : ProofWt) (g h E n a b : Int) (t l T : Nat) :
+    TapeFree (verifyOfToleranceSpecific π g h E n a b t l T) := by
+  unfold verifyOfToleranceSpecific
+  refine TapeFree.bind_prod (tolBounds_tapeFree _ _ _ _ _) fun aa bb => ?_
+  dsimp only
+  refine TapeFree.bind (TapeFree.pw _ _ _) fun gaa => ?_
+  refine TapeFree.bind (divm_tapeFree _ _ _) fun Ea => ?_
+  refine TapeFree.bind (TapeFree.pw _ _ _) fun gbb => ?_
+  refine TapeFree.bind (divm_tapeFree _ _ _) fun Eb => ?_
+  refine TapeFree.bind (divm_tapeFree _ _ _) fun divA => ?_
+  refine TapeFree.bind (divm_tapeFree _ _ _) fun divB => ?_
+  refine TapeFree.ite _ ?_ (TapeFree.pure _)
+  refine TapeFree.bind (verifyOfSquare_tapeFree _ _ _ _) fun s1 => ?_
+  refine TapeFree.bind (TapeFree.ite _ (verifyOfSquare_tapeFree _ _ _ _) (TapeFree.pure _)) fun bs => ?_
+  refine TapeFree.bind (verifyLargeIntervalSpecific_tapeFree _ _ _ _ _ _ _ _ _) fun l1 => ?_
+  refine TapeFree.bind (TapeFree.ite _ (verifyLargeIntervalSpecific_tapeFree _ _ _ _ _ _ _ _ _)
+    (TapeFree.pure _)) fun bl => ?_
+  exact TapeFree.pure _
+
+theorem rangeVerify_tapeFree (cs : Suite) (π : RangeProof) (g h n lo hi : Int) :
+    TapeFree (rangeVerify cs π g h n lo hi) := by
+  unfold rangeVerify
+  refine TapeFree.ite _ TapeFree.panic ?_
+  dsimp only
+  refine TapeFree.bind (TapeFree.pw _ _ _) fun E' => ?_
+  exact TapeFree.ite _ (verifyOfToleranceSpecific_tapeFree _ _ _ _ _ _ _ _ _ _) (TapeFree.pure _)
+
+theorem nisp2secVerify_tapeFree (π : NISPSecrets) (cv g h n : Int) :
+    TapeFree (nisp2secVerify π cv g h n) := by
+  unfold nisp2secVerify; repeat tf_step
+
+theorem prodPowZip_tapeFree (N : Int) (bases : List Int) :
+    ∀ (ix : List Nat) (es : List Int) (acc : Int), TapeFree (prodPowZip N bases ix es acc) := by
+  intro ix
+  induction ix with
+  | nil => intro es acc; exact TapeFree.pure _
+  | cons i is ih =>
+    intro es acc
+    simp only [prodPowZip]
+    have := ih
+    repeat tf_step
+    exact ih _ _
+
+theorem mapM_idx_tapeFree (bases : List Int) : ∀ ix : List Nat, TapeFree (ix.mapM (idx bases)) := by
+  intro ix
+  induction ix with
+  | nil => rw [List.mapM_nil]; exact TapeFree.pure _
+  | cons i is ih => rw [List.mapM_cons]; repeat tf_step
+
+theorem nispMultiSecretsVerify_tapeFree (π : NISPMultiSecrets) (cv : Int) (pk : PublicKey)
+    (bases : List Int) (uo : Option (List Nat)) : TapeFree (nispMultiSecretsVerify π cv pk bases uo) := by
+  unfold nispMultiSecretsVerify
+  dsimp only
+  refine TapeFree.ite _ TapeFree.panic ?_
+  refine TapeFree.bind (prodPowZip_tapeFree _ _ _ _ _) fun _ => ?_
+  refine TapeFree.bind (mapM_idx_tapeFree _ _) fun _ => ?_
+  repeat tf_step
+
+theorem nisp2Verify_tapeFree (π : NISP2Commitments) (c1v c2v : Int) (pk : PublicKey) (bases : List Int)
+    (cpk : CommitmentPK) (U : List Nat) : TapeFree (nisp2Verify π c1v c2v pk bases cpk U) := by
+  unfold nisp2Verify
+  refine TapeFree.bind (TapeFree.pw _ _ _) fun _ => ?_
+  refine TapeFree.bind (TapeFree.pw _ _ _) fun _ => ?_
+  refine TapeFree.bind (prodPowZip_tapeFree _ _ _ _ _) fun _ => ?_
+  refine TapeFree.bind (prodPowZip_tapeFree _ _ _ _ _) fun _ => ?_
+  repeat tf_step
+
+theorem zkMiVerifyLoop_tapeFree (cs : Suite) (pk : PublicKey) (bases : List Int) (π : ZKPoK) :
+    ∀ (is : List Nat) (k : Nat), TapeFree (zkMiVerifyLoop cs pk bases π is k) := by
+  intro is
+  induction is with
+  | nil => intro k; exact TapeFree.pure _
+  | cons i is ih =>
+    intro k
+    simp only [zkMiVerifyLoop]
+    refine TapeFree.bind (TapeFree.idx _ _) fun _ => ?_
+    refine TapeFree.bind (TapeFree.idx _ _) fun _ => ?_
+    refine TapeFree.bind (nisp2secVerify_tapeFree _ _ _ _ _) fun _ => ?_
+    refine TapeFree.ite _ (TapeFree.pure _) ?_
+    refine TapeFree.bind (TapeFree.idx _ _) fun _ => ?_
+    refine TapeFree.bind (rangeVerify_tapeFree _ _ _ _ _ _ _) fun _ => ?_
+    exact TapeFree.ite _ (TapeFree.pure _) (ih _)
+
+theorem zkpokVerify_tapeFree (cs : Suite) (π : ZKPoK) (Cv : Int) (Ctv : Option Int) (pk : PublicKey)
+    (bases : List Int) (cpk : Option CommitmentPK) (U : List Nat) :
+    TapeFree (zkpokVerify cs π Cv Ctv pk bases cpk U) := by
+  unfold zkpokVerify
+  refine TapeFree.bind ?_ fun _ => ?_
+  · split
+    · exact TapeFree.bind (TapeFree.ofOpt _) fun _ => nisp2Verify_tapeFree _ _ _ _ _ _ _
+    · exact TapeFree.pure _
+  refine TapeFree.ite _ (TapeFree.pure _) ?_
+  refine TapeFree.bind (nispMultiSecretsVerify_tapeFree _ _ _ _ _) fun _ => ?_
+  refine TapeFree.ite _ (TapeFree.pure _) ?_
+  refine TapeFree.bind (zkMiVerifyLoop_tapeFree _ _ _ _ _ _) fun _ => ?_
+  refine TapeFree.ite _ (TapeFree.pure _) ?_
+  refine TapeFree.bind (TapeFree.idx _ _) fun _ => ?_
+  refine TapeFree.bind (nisp2secVerify_tapeFree _ _ _ _ _) fun _ => ?_
+  exact TapeFree.ite _ (TapeFree.pure _) (rangeVerify_tapeFree _ _ _ _ _ _ _)
+
 end Zk.ClSigma
